@@ -401,6 +401,10 @@ func classifyDeath(o *runOut) (sig string, msg string, harness bool) {
 	if len(first) > 160 {
 		first = first[:160]
 	}
+	if strings.HasPrefix(first, "fatal error: concurrent map") {
+		// the runtime's own abort on unsynchronised map access: name the kind, it identifies the shared state
+		return "runtime abort (" + strings.TrimPrefix(first, "fatal error: ") + ") at " + top, first + " at " + top, false
+	}
 	return "panic at " + top, first + " at " + top, false
 }
 
